@@ -17,7 +17,7 @@ ROLES_PLAIN = [':ARG0', ':ARG1', ':ARG2', ':op1', ':op2', ':op10', ':mod', ':dom
                ':consist', ':prep-on-behalf', ':prep-out-of', ':prep-out', ':mode', ':year2', ':year', ':prep-on',
                ':instance', ':ARG0xyz', ':modabc', ':polarity-on', ':quant-if']
 CONSTS = ['-', '+', '7', '0', '0.0', '-1.5e3', '"a b"', '"x:y(z)"', '"\\"q\\""', '"C:\\\\"', '"e\\\\\\"f"', 'imperative', 'x~y', '"t~1"',
-          '"#h"', 'a/b', 'Ω', '"é "', '""', '1e400', 'true', 'null', 'NaN']
+          '"#h"', '"a #b"', '"see #5, ^ x"', 'a/b', 'Ω', '"é "', '""', '1e400', 'true', 'null', 'NaN']
 ALNS = ['~1', '~e.2', '~e.1,2', '~E.3', '~x4', '~01', '~2,03']
 BLANKS = [' ', '  ', '\t', '\n', '\n  ', ' \n', '\r\n', '\r', '\x0b', '\x0c']
 EXOTIC = ['\xa0', '　', ' ', '\x85', '\x1c', ' ']
@@ -29,6 +29,9 @@ def maybe(rng, p):
 
 def role(rng, invert=True):
     r = rng.choice(ROLES_PLAIN)
+    if invert and maybe(rng, 0.05):
+        # an over-inverted role that is a normalisation key only after its inversions collapse
+        return rng.choice([':mod', ':domain', ':consist', ':consist-of', ':prep-out-of']) + '-of' * rng.choice([2, 3, 3, 4])
     if invert:
         k = rng.choice([0, 0, 0, 0, 1, 1, 2, 3])
         r += '-of' * k
@@ -250,7 +253,7 @@ def gen_metadata(rng):
     for _ in range(rng.choice([0, 0, 0, 1, 1, 2, 3])):
         k = rng.choice(['snt', 'id', 'tok', 'k-1', 'é', 'snt'])
         v = rng.choice(['', 'hello world', 'a ; b ( c ) " d # e', 'x  y', 'zh 中文', 'l s', 'v\x0bt', 'n\x85l',
-                        'with :: inside'[:rng.randint(0, 14)], 'trail '])
+                        'with :: inside'[:rng.randint(0, 14)], 'trail ', ' lead', '  two words', '\tx', '\u3000wide', '\xa0nb'])
         v = v.rstrip()
         if '::' in v or '::' in k:
             continue
